@@ -37,7 +37,7 @@ def parsePdrs (seid fseidIP : Nat) (apps : List (String × List String)) :
 /-- `UpdatePDR` for each parsed PDR: replace the stored rule with the same ID; unknown IDs are skipped -/
 def updPdrs (stored : List Pdr) (ups : List Pdr) : List Pdr × List Pdr :=
   ups.foldl (fun (st, sent) p =>
-    if st.any (·.pdrID = p.pdrID) then (st.map fun q => if q.pdrID = p.pdrID then p else q, sent ++ [p]) else (st, sent)) (stored, [])
+    if st.any (·.pdrID = p.pdrID) then (st.map fun q => if q.pdrID = p.pdrID then { p with ctrID := q.ctrID } else q, sent ++ [p]) else (st, sent)) (stored, [])
 
 /-- `UpdateFAR`: replace by ID; a flagged update of a known FAR yields a marker from the OLD rule -/
 def updFars (stored : List Far) (ups : List Far) : List Far × List Far × List Marker :=
